@@ -123,6 +123,16 @@ pub fn ev_cases(pl: &Plain, two_d: bool, thorough: bool) -> Vec<EvCase> {
         v.push(EvCase { label: format!("term pair: other before step {}", k), specs: vec![t(a), t(b).term(1)], known_root: Some(a) });
         v.push(EvCase { label: format!("term pair: other after step {}", k), specs: vec![t(b), t(a).term(1)], known_root: Some(b) });
         v.push(EvCase { label: format!("term triple step {}", k), specs: vec![nt(c), t(b).term(1), t(a)], known_root: Some(c) });
+        // two saturating detectors of the same component with different levels: wherever both are saturated they
+        // agree bit for bit (in particular at both ends of the step in which both cross)
+        if let (Ok(ya), Ok(yb)) = (sol.sol(a), sol.sol(b)) {
+            let w = 0.05 * (ya[0] - yb[0]).abs();
+            if w > 1e-6 {
+                v.push(EvCase { label: format!("two saturating detectors step {}", k), specs: vec![EventSpec::new(EvKind::ClipY(0, ya[0], w)), EventSpec::new(EvKind::ClipY(0, yb[0], w))], known_root: None });
+            }
+            // an event function that overflows to +inf shortly after its root: +inf has a sign
+            v.push(EvCase { label: format!("overflowing event function step {}", k), specs: vec![EventSpec::new(EvKind::ExpY(0, ya[0], 4000.0 / (ya[0] - yb[0]).abs().max(1e-3)))], known_root: None });
+        }
         // a function counted with terminal_count(2) that fires only once: the run goes on, and what fires later
         // in the same step (and in later steps) is reported as if the count were not there
         v.push(EvCase { label: format!("count-2 function fires once, another later in step {}", k), specs: vec![t(a).term(2), t(b), nt(c)], known_root: Some(a) });
@@ -508,6 +518,21 @@ fn run_case_c10(cx: &Ctx, key: &str, ec: &EvCase, tj: usize, count: usize, with_
         (Outcome::Ok(s0), Outcome::Ok(s1)) => {
             detail = json!({"terminal_on": tj, "count": count, "t_eval": with_teval, "dense": dense, "base_t_events": s0.t_events, "term_t_events": s1.t_events,
                 "term_status": format!("{:?}", s1.status), "term_t_tail": s1.t.iter().rev().take(3).rev().collect::<Vec<_>>()});
+            // the plain run itself: a (t - c) function of either sign with its root well inside the span and no
+            // direction filter has exactly one event there (the differential below is blind to a defect that drops
+            // the event from both runs)
+            for (i, e) in ec.specs.iter().enumerate() {
+                if let (EvKind::T(cr) | EvKind::NegT(cr), Direction::All) = (&e.kind, e.dir) {
+                    let (lo, hi) = (c0.x0.min(c0.xend), c0.x0.max(c0.xend));
+                    let on_grid = cx.grid.iter().any(|g| (g.0 - cr).abs() <= 1e-9);
+                    if *cr > lo + 1e-6 * (hi - lo) && *cr < hi - 1e-6 * (hi - lo) && !on_grid {
+                        let hits = s0.t_events[i].iter().filter(|t| (*t - cr).abs() <= 1e-9 * (1.0 + cr.abs())).count();
+                        if hits != 1 {
+                            vs.push(("plain-run-event".into(), format!("event {} has its only root at {:e} but the plain run reports {:?}", i, cr, s0.t_events[i])));
+                        }
+                    }
+                }
+            }
             let reached = s0.t_events[tj].len() >= count;
             if !reached {
                 out.tag("count-not-reached");
